@@ -21,6 +21,8 @@ func mkfs(kind string) func() (hackpadfs.FS, func(), error) {
 		return fsad.KVPlainFS
 	case "osref":
 		return fsad.OSRefFS
+	case "oshp":
+		return fsad.OSHackpadFS
 	}
 	fatal("unknown fs kind", kind)
 	return nil
